@@ -236,6 +236,10 @@ def run(rep, tier):
     rep.floor = 5000
 
 
+def san_shards(tier):
+    return [("tsan", [(500 + i, 3, "tsan") for i in range(16)])]
+
+
 def replay(path):
     d = json.load(open(path))
     r = d["replay"]
